@@ -40,7 +40,7 @@ def part_undeclared(ctx, jinja2):
     env = G.make_env(jinja2, resolves=resolves)
     globals_ = sorted(env.globals)
     rng = ctx.rng
-    nprog = ctx.size(1200, 30000)
+    nprog = ctx.size(1200, 10000)
     size = ctx.size(12, 25)
     cases, lines = [], []
     for i in range(nprog):
@@ -53,9 +53,14 @@ def part_undeclared(ctx, jinja2):
         for d in datas:
             lines.append(G.run_line(p, d, N))
         cases.append((p, N, datas, first))
-    out = ctx.driver("scope", lines)
+    st = {}
+    out = G.run_driver(lines, stats=st)
+    if st.get("skipped"):
+        ctx.count("skipped_model_did_not_finish", st["skipped"])
     bad_meta, bad_log = [], []
     for p, N, datas, first in cases:
+        if any(o is None for o in out[first:first + 1 + len(datas)]):
+            continue
         src = G.p_src(p)
         mu, nocall = out[first].split(" | ")
         model_und = sorted(N.rev[int(x)] for x in mu.split(",") if x)
@@ -187,7 +192,7 @@ def part_referenced(ctx, jinja2):
     gen = RefGen(rng)
     N = G.Names()
     ids = {v: N.id(v) for v in ("x", "y", "t")}
-    n = ctx.size(1500, 20000)
+    n = ctx.size(1500, 12000)
     cases, lines = [], []
     for i in range(n):
         kind = rng.choice("eimf")
@@ -209,7 +214,7 @@ def part_referenced(ctx, jinja2):
         lines.append(f"(ref {kind} {sx})")
         lines.append(f"(req {kind} {sx} (dv {dv}) (truth {truth}) (have {have}))")
         cases.append((kind, src, sx, patch, d))
-    out = ctx.driver("scope", lines)
+    out = G.run_driver(lines)
     bad_ref, bad_req = [], []
     for i, (kind, src, sx, patch, d) in enumerate(cases):
         mref = [None if x == "N" else G.expand_text(x[1:], N) for x in out[2 * i].split(";") if x]
